@@ -89,6 +89,9 @@ var c08Cmds = [][2]uint32{{8388000, 0}, {257, 0}, {8388002, 8388001}}
 // c08Msg: message number seq of a connection; the command rotates with conn+seq.
 func c08Msg(conn int, seq uint32, body int, rotate bool) []byte {
 	b := seqMsg(seq, body)
+	if !rotate && seq%3 == 0 {
+		b[4] &^= 0x80 // every third message is an answer: answers and requests share the one-at-a-time order
+	}
 	if rotate {
 		cmd := c08Cmds[(conn+int(seq))%len(c08Cmds)]
 		b[5], b[6], b[7] = byte(cmd[0]>>16), byte(cmd[0]>>8), byte(cmd[0])
